@@ -3,7 +3,7 @@
    Spec/Typing.v never look at an attached error), and the statement from texts on. *)
 From Coq Require Import List Lia Arith Bool.
 From Spl Require Import Proofs.GrammarProofs Spec.Typing Model.Errors Proofs.SemProofs Proofs.TypingProofs Proofs.DeclFaultsText.
-From Spl Require Import Proofs.SynFaults Proofs.SynFaultsStmt Proofs.SynFaultsProg.
+From Spl Require Import Proofs.SynFaults Proofs.SynFaultsEP Proofs.SynFaultsStmt Proofs.SynFaultsProg.
 Import ListNotations.
 Local Open Scope nat_scope.
 
@@ -24,7 +24,46 @@ Proof. apply stmts_errors_clean, clean_stmt_all. Qed.
 Lemma x_cmp_errors o e : expr_errors (x_cmp o e) = [].
 Proof. apply cl_e, clean_cmp. Qed.
 
+Ltac one_err0 := unfold fault_err, gap_err, shift_e; cbn [e_s e_e e_m]; f_equal; f_equal; lia.
+
+Lemma x_var_errors o v : var_errors (x_var o v) = [].
+Proof. apply cl_v, clean_var_ok. Qed.
+Lemma x_fac_errors o f : expr_errors (x_fac o f) = [].
+Proof. apply cl_e, clean_expr_all. Qed.
+Lemma x_mul_errors o m : expr_errors (x_mul o m) = [].
+Proof. apply cl_e, clean_expr_all. Qed.
+Lemma x_add_errors o a : expr_errors (x_add o a) = [].
+Proof. apply cl_e, clean_expr_all. Qed.
+
+(* exactly one error in the faulty expression: at the token in front of the gap *)
+Lemma fxe_errors :
+  (forall v o, var_errors (fx_var o v) = [fault_err (gk_var v) (o + gap_var v)]) /\
+  (forall f o, expr_errors (fx_fac o f) = [fault_err (gk_fac f) (o + gap_fac f)]) /\
+  (forall m o, expr_errors (fx_mul o m) = [fault_err (gk_mul m) (o + gap_mul m)]) /\
+  (forall a o, expr_errors (fx_add o a) = [fault_err (gk_add a) (o + gap_add a)]) /\
+  (forall e o, expr_errors (fx_cmp o e) = [fault_err (gk_cmp e) (o + gap_cmp e)]).
+Proof.
+  apply fexpr_mutind; intros; fxg_eqs; cbn [var_errors expr_errors gk_var gk_fac gk_mul gk_add gk_cmp gap_var gap_fac gap_mul gap_add gap_cmp
+                                             einfo mkinfo i_errs app];
+    rewrite ?x_var_errors, ?x_cmp_errors, ?x_fac_errors, ?x_mul_errors, ?x_add_errors, ?H; cbn [shift_es map app]; rewrite ?app_nil_r;
+    try reflexivity; try one_err0.
+Qed.
+
 Ltac one_err := unfold fault_err, gap_err, shift_e; cbn [e_s e_e e_m]; f_equal; f_equal; lia.
+
+Lemma x_tail_errors o l : args_errors (x_tail fl_cmp (x_cmp 0) o l) = [].
+Proof. apply args_errors_clean, clean_tail. Qed.
+
+Lemma fx_args_errors a o : args_errors (fx_args o a) = [fault_err (gk_args a) (o + gap_args a)].
+Proof.
+  destruct a as [e l|e0 pre c e post]; cbn [fxg_args gk_args gap_args]; cbv zeta; unfold args_errors; cbn [flat_map fst snd].
+  - fold (args_errors (x_tail fl_cmp (x_cmp 0) (o + len (ffl_cmp e)) l)).
+    rewrite x_tail_errors, (proj2 (proj2 (proj2 (proj2 fxe_errors)))), app_nil_r. cbn [shift_es map]. one_err.
+  - rewrite flat_map_app. cbn [flat_map fst snd].
+    fold (args_errors (x_tail fl_cmp (x_cmp 0) (o + len (fl_cmp e0)) pre)).
+    match goal with |- context [flat_map _ (x_tail fl_cmp (x_cmp 0) ?o2 post)] => fold (args_errors (x_tail fl_cmp (x_cmp 0) o2 post)) end.
+    rewrite !x_tail_errors, x_cmp_errors, (proj2 (proj2 (proj2 (proj2 fxe_errors)))), app_nil_r. cbn [shift_es map app]. one_err.
+Qed.
 
 (* exactly one error in the faulty statement: at the token in front of the gap *)
 Lemma fx_errors :
@@ -44,6 +83,18 @@ Proof.
     rewrite x_cmp_errors, !x_stmt_errors. reflexivity.
   - intros c1 c2 e b o. cbn [fxg_stmt gk_stmt]. rewrite stmt_errors_while. cbn [einfo i_errs opt_expr_errors opt_stmt_errors].
     rewrite x_cmp_errors, x_stmt_errors. reflexivity.
+  - intros v c1 e c2 o. cbn [fxg_stmt gap_stmt gk_stmt stmt_errors opt_expr_errors mkinfo i_errs app].
+    rewrite (proj1 fxe_errors), x_cmp_errors. cbn [shift_es map]. rewrite app_nil_r. reflexivity.
+  - intros v c1 e c2 o. cbn [fxg_stmt gap_stmt gk_stmt stmt_errors opt_expr_errors mkinfo i_errs app].
+    rewrite x_var_errors, (proj2 (proj2 (proj2 (proj2 fxe_errors)))). cbn [shift_es map app]. one_err.
+  - intros c1 c2 e c3 t o. cbn [fxg_stmt gap_stmt gk_stmt]. rewrite stmt_errors_if. cbn [mkinfo i_errs opt_expr_errors opt_stmt_errors app].
+    rewrite (proj2 (proj2 (proj2 (proj2 fxe_errors)))), x_stmt_errors. cbn [shift_es map app]. one_err.
+  - intros c1 c2 e c3 t c4 s o. cbn [fxg_stmt gap_stmt gk_stmt]. rewrite stmt_errors_if. cbn [mkinfo i_errs opt_expr_errors opt_stmt_errors app].
+    rewrite (proj2 (proj2 (proj2 (proj2 fxe_errors)))), !x_stmt_errors. cbn [shift_es map app]. one_err.
+  - intros c1 c2 e c3 b o. cbn [fxg_stmt gap_stmt gk_stmt]. rewrite stmt_errors_while. cbn [mkinfo i_errs opt_expr_errors opt_stmt_errors app].
+    rewrite (proj2 (proj2 (proj2 (proj2 fxe_errors)))), x_stmt_errors. cbn [shift_es map app]. one_err.
+  - intros c1 f c2 a c3 c4 o. cbn [fxg_stmt gap_stmt gk_stmt]. rewrite call_errors. cbn [mkinfo i_errs]. unfold ident_errors, x_ident.
+    cbn [id_info mkinfo i_errs app]. rewrite fx_args_errors. one_err.
   - intros c1 c2 e c3 t IH o. cbn [fxg_stmt gap_stmt gk_stmt]. rewrite stmt_errors_if. cbn [mkinfo i_errs opt_expr_errors opt_stmt_errors app].
     rewrite x_cmp_errors, IH. cbn [shift_es map app]. rewrite ?app_nil_r. one_err.
   - intros c1 c2 e c3 t IH c4 s o. cbn [fxg_stmt gap_stmt gk_stmt]. rewrite stmt_errors_if. cbn [mkinfo i_errs opt_expr_errors opt_stmt_errors app].
@@ -103,8 +154,8 @@ Proof.
     unfold ident_errors, x_ident. cbn [id_info mkinfo i_errs app]. rewrite x_params_errors. cbn [app].
     rewrite flat_map_app. cbn [flat_map fst snd]. rewrite !x_vardecls_errors.
     match goal with |- context [flat_map _ (x_stmts ?o b)] => fold (stmts_errors (x_stmts o b)); rewrite (x_stmts_errors o b) end.
-    unfold fxg_var. cbv zeta. cbn [vardecl_errors einfo i_errs opt_ident_errors opt_texpr_errors]. unfold ident_errors, x_ident.
-    cbn [id_info mkinfo i_errs]. rewrite x_type_errors. cbn [shift_es map app]. pose proof (ffl_var_pos d1 d2 y d3 t). unfold e_real. rewrite !app_nil_r. cbn [shift_es map]. one_err.
+    unfold fxg_vdecl. cbv zeta. cbn [vardecl_errors einfo i_errs opt_ident_errors opt_texpr_errors]. unfold ident_errors, x_ident.
+    cbn [id_info mkinfo i_errs]. rewrite x_type_errors. cbn [shift_es map app]. pose proof (ffl_vdecl_pos d1 d2 y d3 t). unfold e_real. rewrite !app_nil_r. cbn [shift_es map]. one_err.
   - unfold procdecl_errors. cbn [pd_info pd_name pd_params pd_vars pd_stmts einfo i_errs opt_ident_errors app].
     unfold ident_errors, x_ident. cbn [id_info mkinfo i_errs app]. rewrite x_params_errors, x_vardecls_errors.
     match goal with |- context [flat_map _ (x_stmts ?o b)] => fold (stmts_errors (x_stmts o b)); rewrite (x_stmts_errors o b) end.
